@@ -53,6 +53,17 @@ func runC16(r *fw.Run, p *fw.Program) {
 	x.text()
 }
 
+// runC16TextOnly runs only the text-decoder rules (borrowed by C07 for fromjson).
+func runC16TextOnly(r *fw.Run, p *fw.Program) {
+	x := &c16{r: r, p: p}
+	x.dType = p.NamedType("pkg/decode", "D")
+	if x.dType == nil {
+		r.Fatal("anchor missing: pkg/decode.D")
+		return
+	}
+	x.text()
+}
+
 type c16 struct {
 	r     *fw.Run
 	p     *fw.Program
